@@ -48,7 +48,7 @@ package actor
 // lock was acquired: every critical section is one atomic transition of the
 // abstract map.
 
-//@ private H$actor.Registry, H$actor.process, H$actor.Context, H$actor.Inbox, H$actor.Engine, H$actor.PID, E$S$actor.Envelope, E$Ref
+//@ private H$actor.Registry, H$actor.process, H$actor.Context, H$actor.Inbox, H$actor.Engine, H$actor.PID, H$actor.Response, E$S$actor.Envelope, E$Ref
 
 //@ guarded Registry(r) by mu footprint r.lookup, mapof(r.lookup)
 //@ lockinv[C10.inv] r.lookup != nil
@@ -56,6 +56,7 @@ package actor
 //@ func (*Registry).add(proc)
 //@   props C10 C04
 //@   requires r != nil && r.engine != nil && !isnil(proc)
+//@   modifies heap except private, mapof(r.lookup), log, loglen
 //@   atunlock[C10.add.dup-untouched] old(has(r.lookup, pidof(proc).ID)) ==> forallS("Str", id, has(r.lookup, id) == old(has(r.lookup, id)) && r.lookup[id] == old(r.lookup[id]))
 //@   atunlock[C10.add.insert-dom] !old(has(r.lookup, pidof(proc).ID)) ==> forallS("Str", id, has(r.lookup, id) == (old(has(r.lookup, id)) || id == pidof(proc).ID))
 //@   atunlock[C10.add.insert-val] !old(has(r.lookup, pidof(proc).ID)) ==> r.lookup[pidof(proc).ID] == proc
@@ -102,6 +103,7 @@ package actor
 //@ func (*Context).GetPID(id)
 //@   props C10
 //@   requires c != nil && c.engine != nil && c.engine.Registry != nil
+//@   modifies
 //@   ghost at call getByID#1 before: assert[C10.ctx-getpid.key] arg1 == id && arg0 == c.engine.Registry
 //@   ghost at call getByID#1: got = result
 //@   ensures[C10.ctx-getpid.hit] !isnil(got) ==> result == pidof(got)
@@ -112,8 +114,9 @@ package actor
 //@ func (*Engine).SpawnProc(p)
 //@   props C10
 //@   requires e != nil && e.Registry != nil && e.Registry.engine != nil && !isnil(p)
+//@   modifies heap except private, log, loglen
 //@   ghost at call add#1 before: assert[C10.spawnproc.add] arg0 == e.Registry && arg1 == p
-//@   ensures[C10.spawnproc.pid] result == pidof(p)
+//@   ensures[C10.spawnproc.pid] result == pidof(p) && result != nil
 //@   ensures[C10.spawnproc.effects] (loglen == entry(loglen) + 2 && log[entry(loglen)] == RegAdd(e.Registry, pidof(p).ID, p) && log[entry(loglen) + 1] == ProcStart(p)) || (loglen == entry(loglen) + 1 && log[entry(loglen)] == Broadcast(e.Registry.engine, ActorDuplicateIdEvent{PID: pidof(p)}))
 
 // ---------------------------------------------------------------------------
@@ -617,6 +620,7 @@ package actor
 //@ func (*Inbox).process()
 //@   props C02 C03
 //@   requires inboxOK(in) && tok && !owes
+//@   modifies heap except H$actor.Inbox$rb H$actor.Inbox$scheduler, stoppedByMe, tokens, wakers, log, loglen, tok, owes
 //@   ghost at call CompareAndSwapInt32#1 on success: tokens = tokens - 1; tok = false; wakers = wakers + 1; owes = true
 //@   ghost at call CompareAndSwapInt32#1 on failure: tokens = tokens - 1; tok = false
 //@   ghost at call Len#1: wakers = ite(result == 0, wakers - 1, wakers); owes = result != 0
@@ -844,6 +848,7 @@ package actor
 
 //@ func (*Context).SpawnChild(p, name, opts)
 //@   props C08
+//@   modifies heap except private, mapof(c.children.data), log, loglen
 //@   requires c != nil && c.pid != nil && engInv(c.engine) && c.children != nil && forall(k, 0 <= k && k < len(opts) ==> opts[k] != nil)
 //@   ghost at call SpawnProc#1 before: assert[C08.spawnchild.child-knows-its-parent] arg0 == c.engine && arg1 == Processer(proc) && proc.context.parentCtx == c
 //@   ghost at call SpawnProc#1: spawned = result
